@@ -531,6 +531,10 @@ func c04Judge(c *mon.Ctx, in *c04Case) {
 
 // ---- workload ---------------------------------------------------------------
 
+// c04BigPayload, when non-zero, is the payload size of the next inscription
+// built (the large-inscriptions phase; the case record holds the script itself).
+var c04BigPayload int
+
 func c04Inscription(pkh []byte, r *prng.R) []byte {
 	s := gen.P2PKH(pkh)
 	s = append(s, 0x00, 0x63, 0x03, 'o', 'r', 'd', 0x51)
@@ -538,6 +542,9 @@ func c04Inscription(pkh []byte, r *prng.R) []byte {
 	s = append(s, gen.Push([]byte(ctype))...)
 	s = append(s, 0x00)
 	n := prng.Pick(r, []int{1, 2, 13, 75, 76, 255, 256, 600})
+	if c04BigPayload > 0 {
+		n = c04BigPayload
+	}
 	s = append(s, gen.Push(r.Bytes(n))...)
 	s = append(s, 0x68)
 	// the enriched form Tx.Inscribe builds: OP_RETURN followed by pushes (tails of 0, 1, 2 and more bytes)
@@ -632,6 +639,21 @@ func init() {
 						judge(c, c04MakeCase(r, ni, no, i, t, "FillInput", (ni+no+i+ti)%2 == 1))
 					}
 				}
+			}
+		}
+		c.Phase("large-inscriptions") // payloads around the PUSHDATA2 / PUSHDATA4 boundary
+		n = 0
+		for _, size := range []int{65535, 65536, 70000} {
+			for _, t := range []uint8{0x41, 0xC3, 0x01, 0x82} {
+				n++
+				if !c.Case(n) {
+					continue
+				}
+				r := c.Rand(n)
+				c04BigPayload = size
+				cs := c04MakeCase(r, 1+int(n%2), 1, 0, t, "FillInput", true)
+				c04BigPayload = 0
+				judge(c, cs)
 			}
 		}
 		c.Phase("random-shapes")
